@@ -174,6 +174,27 @@ Proof.
   unfold held in H1 at 2. unfold held in H2 at 2. cbn in H1, H2. rewrite E in H1, H2. split; assumption.
 Qed.
 
+(* rows held in blocks never are payload-free blank rows *)
+Lemma held_fold_kinds l (s : st R) :
+  Forall (fun r => kind_of r <> KBlank0) (held s) ->
+  Forall (fun r => kind_of r <> KBlank0) (held (fold_left step l s)).
+Proof.
+  revert s; induction l as [|[i r] l IH]; intros s H; cbn [fold_left]; [assumption|].
+  apply IH. rewrite held_step. destruct (keeps s r) eqn:K; [|assumption].
+  apply Forall_app. split; [assumption|]. constructor; [|constructor].
+  unfold keeps in K. intro C. rewrite C in K. discriminate.
+Qed.
+
+Theorem block_rows_kept rs t i g r :
+  In (t, i, g) (segment rs) -> In r g -> kind_of r <> KBlank0.
+Proof.
+  intros Hb Hr.
+  assert (Forall (fun r => kind_of r <> KBlank0) (grids (segment rs))) as F.
+  { unfold grids, Segment.segment. rewrite held_emit. apply held_fold_kinds. constructor. }
+  rewrite Forall_forall in F. apply F. unfold grids. apply in_concat. exists g. split; [|assumption].
+  apply in_map_iff. exists (t, i, g). split; [reflexivity|assumption].
+Qed.
+
 (* ---------- origins ---------- *)
 Definition type_ok (t : btype) (i : nat) (k : kind) : Prop :=
   match t with
